@@ -39,7 +39,7 @@ var c18Vals = [][]byte{[]byte(""), []byte("a"), []byte("abcdef"), bytes.Repeat([
 
 func c18ValLabel(i int) string { return []string{"empty", "len1", "len6", "len4096", "len3"}[i] }
 
-var c18Names = []string{"a", "", "ü", "with/slash", "a:b", string(pat(100, 200)), "\xff\xfe", "ab\xee", "name.entity"}
+var c18Names = []string{"a", "", "ü", "with/slash", "a:b", string(pat(100, 200)), "\xff\xfe", "ab\xee", "name.entity", "A", strings.Repeat("n", 124)}
 
 func c18NameLabel(n string) string {
 	switch {
@@ -350,6 +350,11 @@ func c18Run(c *fw.Ctx) {
 			d = 3
 		}
 		c18Explore(c, "db", c18DBOps(), d)
+		// two keys that differ only in the case of a letter
+		saved := c18Keys
+		c18Keys = []string{"k1", "K1"}
+		c18Explore(c, "storage", c18StorageOps(), depth)
+		c18Keys = saved
 	default:
 		// shards 2..: the un-merged trees (storage depth 3, thorough 4 on a reduced alphabet; database depth 2)
 		parts := c.NShards - 2
@@ -367,7 +372,7 @@ func c18Run(c *fw.Ctx) {
 		c18Tree(c, "storage", sops, td, c.Shard-2, parts)
 		var dops []c18Op
 		for _, op := range c18DBOps() {
-			if op.Key == "0" || op.Key == "5" || op.Key == "7" || op.Op == "entities" || op.Op == "reopen" {
+			if op.Key == "0" || op.Key == "5" || op.Key == "7" || op.Key == "9" || op.Op == "entities" || op.Op == "reopen" {
 				dops = append(dops, op)
 			}
 		}
